@@ -35,6 +35,9 @@ def unitary(gate, decomposition="qsd", iso=0, apply_a2=True):
     Implements a generic quantum computation from a
     unitary matrix gate using the cosine sine decomposition.
     """
+    if not is_unitary_matrix(np.asarray(gate)):
+        raise ValueError("The input matrix is not unitary.")
+
     circuit = build_unitary(gate, decomposition, iso)
     if decomposition == "qsd" and apply_a2:
         return _apply_a2(circuit)
